@@ -35,6 +35,9 @@ func purchase() (sdkmath.Int, math.Dec) {
 	q, err := math.NewPositiveFixedDecFromString(zz.NondetAtom("quantity"), 6)
 	zz.Assume(err == nil)
 	zz.Assume(zz.QLt(zz.QOf(q), zz.QPow10(zz.Bound("qty_digits", 20))))
+	// products are uninterpreted in this run (mul_abstract): the one fact about the
+	// product of the two bounded positive factors that the obligations need
+	zz.Assume(zz.QLt(zz.QMul(zz.QOf(q), zz.QOf(ask)), zz.QPow10(zz.Bound("ask_digits", 30)+zz.Bound("qty_digits", 20))))
 	return ask, q
 }
 
